@@ -2,6 +2,7 @@
 CONSTANTS LoopDelayOwnFreeVars = TRUE
           LoopDurationMapped = TRUE
           ParamValuesReachDelays = FALSE
+          ChecksBeforeSave = TRUE AliasesReachDurations = TRUE
           Family = "cex"
 INIT Init
 NEXT Next
